@@ -72,10 +72,29 @@ func (core *JApiCore) buildUserTypes() *jerr.JApiError {
 		return adoptError(err)
 	}
 
+	// Every type gets the rules before any type is looked into: finding the types a type uses loads the types it
+	// refers to, and a loaded type takes no more rules (a type used before its declaration was loaded first and
+	// then failed to take the rules).
+	err = core.userTypes.Each(func(n string, ut schema.Schema) error {
+		return core.addRulesToUserType(n, ut)
+	})
+	if err != nil {
+		return adoptError(err)
+	}
+
 	err = core.userTypes.Each(func(n string, _ schema.Schema) error {
 		return core.compileUserTypeWithAllDependencies(n)
 	})
 	return adoptError(err)
+}
+
+func (core *JApiCore) addRulesToUserType(name string, ut schema.Schema) error {
+	for n, r := range core.rules {
+		if err := ut.AddRule(n, r); err != nil {
+			return jschemaToJAPIError(err, core.rawUserTypes.GetValue(name))
+		}
+	}
+	return nil
 }
 
 func (core *JApiCore) compileUserTypeWithAllDependencies(name string) error {
@@ -91,13 +110,6 @@ func (core *JApiCore) compileUserTypeWithAllDependencies(name string) error {
 	}
 
 	dd := core.rawUserTypes
-
-	// Add rules before we try to do something with the type.
-	for n, r := range core.rules {
-		if err := currUT.AddRule(n, r); err != nil {
-			return jschemaToJAPIError(err, dd.GetValue(n))
-		}
-	}
 
 	tt, err := fetchUsedUserTypes(currUT, core.userTypes)
 	if err != nil {
